@@ -315,7 +315,7 @@ impl<'r> fixed_point::FixedPointAnalysis<'r, Constants> for ConstantsAnalysis {
     let ghost ss = il::written_scalars(*intrinsic);
 //@ before 0 `for scalar in vf_it`
     let ghost refs = scalars_written@;
-    proof { assert(tops_view(m0, ss.unwrap().take(0)) =~= m0); }
+    proof { lemma_tops_none(m0, ss.unwrap()); }
 //@ loop 0
     invariant
         vf_it.seq() == refs,
@@ -323,19 +323,8 @@ impl<'r> fixed_point::FixedPointAnalysis<'r, Constants> for ConstantsAnalysis {
         il::refs_are(refs, ss.unwrap()),
         state@ == tops_view(m0, ss.unwrap().take(vf_it.index@ as int)),
 //@ before 0 `state.set_scalar(scalar.clone(), Constant::Top)`
-    proof {
-        let sq = ss.unwrap();
-        let n = vf_it.index@ as int;
-        assert(sq.take(n + 1) =~= sq.take(n).push(sq[n]));
-        assert(tops_view(m0, sq.take(n)).insert(sq[n], Constant::Top) =~= tops_view(m0, sq.take(n + 1))) by {
-            assert forall|x: il::Scalar| sq.take(n + 1).contains(x) <==> (sq.take(n).contains(x) || x == sq[n]) by {
-                if sq.take(n).contains(x) { let i = choose|i: int| 0 <= i < n && sq.take(n)[i] == x; assert(sq.take(n + 1)[i] == x); }
-                if x == sq[n] { assert(sq.take(n + 1)[n] == x); }
-            }
-            assert(sq.take(n + 1).to_set() =~= sq.take(n).to_set().insert(sq[n]));
-        }
-    }
-//@ after 0 `state.set_scalar(scalar.clone(), Constant::Top) }`
+    proof { lemma_tops_step(m0, ss.unwrap(), vf_it.index@ as int); }
+//@ after 0 `state.set_scalar(scalar.clone(), Constant::Top); }`
     proof { assert(ss.unwrap().take(ss.unwrap().len() as int) =~= ss.unwrap()); }
 //@ end
 
